@@ -1002,6 +1002,12 @@ class Exec:
         for n, v in fr.regs.items():
             if n not in env:
                 env[n] = ('val', v)
+        # locals renamed since the contracts were written (pure renaming, recognised in check.py): old names are aliases
+        rn = (getattr(self.prog, 'renamed_locals', None) or {}).get(fr.f['name'])
+        if rn:
+            for old_n, new_n in rn.items():
+                if old_n not in env and new_n in env:
+                    env[old_n] = env[new_n]
         top = self.cur_fn
         own = fr.f['name'] == top or fr.f['name'].startswith(top + '$')
         for n, ent in self.cur_env.items():
